@@ -1,10 +1,12 @@
 """Worker for C17: runs the real `simplifier.load_subs` on every job of a job file, on this rank.
 
 argv: jobs.json outprefix
-jobs.json: [{"file": path, "k": max_param, "use_sympy": bool}, ...]
+jobs.json: [{"file": path, "k": max_param, "use_sympy": bool[, "faults": [[fn, line, n], ...], "root": stage]}, ...]
+  with "faults": a genuine SIGALRM is delivered at those sites on EVERY rank (harness/inject.py; a site only exists while a time
+  limit of the code under test is active), and the per-job entry is ("ok", result, fired) | ("timeout", repr, fired)
 writes <outprefix>.<rank>.pkl: list of ("ok", result) | ("raise", repr) per job (every rank: bcast_res=True)
 """
-import json, pickle, sys
+import json, os, pickle, sys
 
 
 def main():
@@ -13,6 +15,15 @@ def main():
     out = []
     for jb in jobs:
         try:
+            if jb.get("faults") is not None:
+                sys.path.insert(0, os.path.dirname(os.path.dirname(os.path.abspath(__file__))))
+                import inject
+                inj = inject.Injector(S, ["load_subs"], root=jb.get("root"))
+                res, fired = inj.inject(jb["faults"], S.load_subs, jb["file"], jb["k"], use_sympy=jb["use_sympy"])
+                if res[0] == "raise":
+                    raise res[1]
+                out.append(("ok", res[1], [list(s) for s in fired]))
+                continue
             res = S.load_subs(jb["file"], jb["k"], use_sympy=jb["use_sympy"])
             out.append(("ok", res))
         except Exception as e:          # a raise on one rank would hang real MPI; the hub reports it
